@@ -173,6 +173,8 @@ func runC17(cfg runCfg) error {
 		name string
 		gw   *gatewayUnderTest
 		off  *gatewayUnderTest
+		sdl0  string // the published schema as it was when the gateway was built
+		term0 string // and the term the model is given for it
 	}
 	var fixed []src
 	for _, fx := range fixtures {
@@ -184,7 +186,7 @@ func runC17(cfg runCfg) error {
 		if err != nil {
 			return err
 		}
-		fixed = append(fixed, src{fx.Name, env.gw, envOff.gw})
+		fixed = append(fixed, src{fx.Name, env.gw, envOff.gw, schemaSDL(env.gw.es.MergedSchema), cISch(env.gw.es.MergedSchema)})
 	}
 	distinct := 0
 	for ci := 0; ci < cfg.n; ci++ {
@@ -209,13 +211,15 @@ func runC17(cfg runCfg) error {
 				if err != nil {
 					continue
 				}
-				s = src{"generated", gw, off}
+				s = src{"generated", gw, off, schemaSDL(gw.es.MergedSchema), cISch(gw.es.MergedSchema)}
 			}
 			if s.gw == nil {
 				s = fixed[r.Intn(len(fixed))]
 			}
 		}
 		schema := s.gw.es.MergedSchema
+		// the schema handed to the model is the one the gateway published when it was built (rendered then): requests served
+		// since (with other permission sets) must not have changed the shared schema
 		hdr := map[string]string{}
 		permTerm := "None"
 		var perms *bramble.OperationPermissions
@@ -239,7 +243,7 @@ func runC17(cfg runCfg) error {
 			canonIntrospection(resp.Data)
 			obs = "(Some " + cJSON(resp.Data) + ")"
 		}
-		w.add(name, "{| ic_schema := "+cISch(schema)+"; ic_perm := "+permTerm+"; ic_obs := "+obs+"; ic_obs_errors := "+fmt.Sprint(len(resp.Errors))+" |}")
+		w.add(name, "{| ic_schema := "+s.term0+"; ic_perm := "+permTerm+"; ic_obs := "+obs+"; ic_obs_errors := "+fmt.Sprint(len(resp.Errors))+" |}")
 		pb, _ := json.Marshal(perms)
 		in := map[string]interface{}{"schema": s.name, "schema_sdl": schemaSDL(schema), "permissions": string(pb), "query": "the standard introspection query (c17.go standardIntrospection)",
 			"errors": errorSummary(resp.Errors)}
@@ -457,6 +461,7 @@ func runC17(cfg runCfg) error {
 			okFrag := canon(ra.Data) == canon(rb.Data) && len(ra.Errors) == len(rb.Errors)
 			add("prop.c17.fragments_consistent", okFrag, fmt.Sprintf("%s\n gave %.600s\n the fragment-free form gave %.600s", withFrag, fmt.Sprint(ra.Data), fmt.Sprint(rb.Data)))
 		}
+		add("prop.c17.shared_schema_untouched", schemaSDL(s.gw.es.MergedSchema) == s.sdl0, "the merged schema's SDL is no longer what the gateway published when it was built")
 		add("prop.c17.aliases_consistent", okAlias, detail)
 		add("prop.c17.include_deprecated_consistent", okDep, detail)
 		// ---- introspection disabled: no type or field name of the schema is revealed
